@@ -4,6 +4,10 @@ import json, subprocess
 
 CLAIMED = {
     # id: (technique, level text, level note, design ref)
+    "C14": ("Lean 4 proof (induction on lists / strong induction on naturals) of codec round trips + injectivity; model tied to /repo by differential execution of every codec through the real encoders/decoders",
+            "Theorems in lean/NodisVerif/Props/C14.lean: varint/uvarint round trip for every int64/uint64 with arbitrary trailing bytes, key codec round trip and injectivity for every name and deadline, round trip of all five value codecs for every well-formed value of every size (sorted sets incl. the rebuilt skiplist order, every non-NaN score bit pattern). The model's encoders/decoders are executed against ds.Key.Encode/DecodeKey, <type>.GetValue/SetValue and the storage entry envelope on boundary tables, random values and (thorough) every element length 0..16500; the buffer-independence clause is decided on the implementation by overwriting the source buffer after decoding.",
+            "Lean kernel + propext/Classical.choice/Quot.sound; the correspondence run (generator quality bounds it); Go's encoding/binary is modelled (Varint.lean), not verified; buffer aliasing is decided by execution only (a pure model cannot exhibit it).",
+            "DESIGN.md §6 C14"),
 }
 NOT_YET = {
 }
